@@ -306,6 +306,41 @@ static int run_fn() {
             int valid = sf.ReadData2( in2, true );
             r << " cnt=" << valid << " nc=" << sf.invalid() << " " << obs( in2 );
             im.DeleteInstances();
+        } else if( fn == "stayin" ) {
+            // the hypothesis of the pass-2 theorems on the real record readers: where does `STEPread` (+ the token separator
+            // behind it) stop, compared with the ends of this record (p1) and of the next one (p2) as SkipInstance finds them
+            // from the record's start?  bytes = the input from the start of a record on.
+            std::string t1, t2;
+            std::istringstream sk( bytes );
+            SkipInstance( sk, t1 ); sk.clear(); long p1 = ( long )sk.tellg();
+            SkipInstance( sk, t2 ); sk.clear(); long p2 = ( long )sk.tellg();
+            InstMgr im; SF sf( reg, im );
+            std::istringstream hdr( "HEADER;FILE_DESCRIPTION((''),'2;1');FILE_NAME('','',(''),(''),'','','');FILE_SCHEMA(('C05A'));ENDSEC;" );
+            sf.ReadHeader( hdr );
+            std::istringstream in( bytes );
+            SDAI_Application_instance * o = 0;
+            std::string cmt;
+            ReadTokenSeparator( in, &cmt );
+            if( in.peek() == '(' ) {
+                std::istringstream in1( bytes );
+                ErrorDescriptor e;
+                o = sf.CreateSubSuperInstance( in1, 1, e );
+            } else {
+                std::string kw;
+                ReadStdKeyword( in, kw, 1 );
+                ReadTokenSeparator( in, &cmt );
+                o = reg.ObjCreate( kw.c_str() );
+            }
+            if( !o || o == ENTITY_NULL ) {
+                r << "ok none p1=" << p1 << " p2=" << p2;
+            } else {
+                Severity s = o->STEPread( 1, 0, &im, in, NULL, true, false );
+                ReadTokenSeparator( in, &cmt );
+                in.clear();
+                long prd = ( long )in.tellg();
+                r << "ok sev=" << ( int )s << " p1=" << p1 << " p2=" << p2 << " prd=" << prd;
+                delete o;
+            }
         } else if( fn == "hdrkw" ) {
             // a header section whose first entity keyword has <arg> characters
             std::string h = "HEADER;\n" + std::string( ( size_t )arg, 'K' ) + "(());\nENDSEC;\n";
